@@ -64,6 +64,30 @@ class HDict:
         return HDict(self.arr, self.dom)
 
 
+class HObjList:
+    """symbolic-length list of objects of one class, struct-of-arrays: field f of element i is Select(fields[f], i).
+    pair=True models a list of [object, memo] two-element lists (Matcher.expressions)."""
+    def __init__(self, clsname, cf, length, path, pair=False):
+        self.clsname, self.cf, self.length, self.path, self.pair = clsname, cf, length, path, pair
+        self.fields = {}      # name -> (type, array term)
+
+    def clone(self):
+        o = HObjList(self.clsname, self.cf, self.length, self.path, self.pair)
+        o.fields = dict(self.fields)
+        return o
+
+
+class ElemRef:
+    """element `idx` of an HObjList (part='pair' is the [object, memo] two-list itself, part='obj' the object)"""
+    __slots__ = ("oid", "idx", "part")
+
+    def __init__(self, oid, idx, part="obj"):
+        self.oid, self.idx, self.part = oid, idx, part
+
+    def __repr__(self):
+        return f"ElemRef({self.oid},{self.idx},{self.part})"
+
+
 class HRec:
     """python dict with constant string keys (keyword-argument bundles like Equality's `args`)"""
     def __init__(self, items):
@@ -170,6 +194,9 @@ class Exec:
         self.fn_ident = contract.ident
         self.written_paths = set()
         self.solver = None
+        self.objlist_fields = {}
+        self.alias_paths = {}
+        self.old_stack = []
 
     # ------------------------------------------------------------------ basics
     def alloc(self, obj):
@@ -272,7 +299,7 @@ class Exec:
             self.inputs[name] = t
             self.pc.append(z3.Or([ops.tag_is(SV("val", t), tg) for tg in TYPE_TAGS[typ]]))
             return ops.V(t, TYPE_TAGS[typ])
-        if typ == "opaque":
+        if typ in ("opaque", "exception"):
             t = z3.Const(name, Val)
             self.inputs[name] = t
             self.pc.append(Val.is_OpaqueV(t))
@@ -294,6 +321,16 @@ class Exec:
             inner = _split_top(typ[typ.index("[") + 1:-1])
             items = [self.mk(t, f"{name}.{i}") for i, t in enumerate(inner)]
             return self.alloc(HTuple(items, is_tuple=typ.startswith("tuple[")))
+        m = re.fullmatch(r"(objlist|pairlist)\[(\w+)\]", typ)
+        if m:
+            cn = m.group(2)
+            cf = self.facts.cls(cn)
+            if cf is None:
+                raise OutsideSubset(f"unknown class {cn}")
+            ln = z3.Int(name + "!len")
+            self.inputs[name + "!len"] = ln
+            self.pc.append(ln >= 0)
+            return self.alloc(HObjList(cn, cf, ln, name, pair=(m.group(1) == "pairlist")))
         if typ.startswith("rec["):
             items = {}
             for part in _split_top(typ[4:-1]):
@@ -328,6 +365,8 @@ class Exec:
         if isinstance(obj, HObj):
             if attr in obj.fields:
                 return obj.fields[attr]
+            if attr == "__class__":
+                return ClassRef(obj.clsname, obj.cf)
             cf = obj.cf
             if cf is not None:
                 lk = self.facts.lookup(cf, attr)
@@ -354,10 +393,76 @@ class Exec:
             raise OutsideSubset(f"contract {self.contract.ident} declares no type for {path}")
         raise OutsideSubset(f"attribute {attr} of {type(obj).__name__}")
 
+    SORTS = {"int": lambda: z3.IntSort(), "bool": lambda: z3.BoolSort(), "str": lambda: z3.StringSort(), "real": lambda: z3.RealSort()}
+
+    def elem_field_array(self, lst, attr):
+        if attr in lst.fields:
+            return lst.fields[attr]
+        typ = None
+        names = [c.name for c in lst.cf.mro] if lst.cf is not None else [lst.clsname]
+        for nm in names:
+            typ = self.contract.class_fields.get(nm, {}).get(attr)
+            if typ is not None:
+                break
+        if attr == "__memo__":
+            typ = "optbool"
+        if typ is None:
+            return None
+        srt = self.SORTS[typ]() if typ in self.SORTS else (Val if (typ in TYPE_TAGS or typ in ("opaque", "exception")) else None)
+        if srt is None:
+            raise OutsideSubset(f"field {attr}:{typ} of list elements is not scalar")
+        nm = f"{lst.path}[*].{attr}"
+        arr = z3.Const(nm, z3.ArraySort(z3.IntSort(), srt))
+        self.inputs[nm] = arr
+        if typ in TYPE_TAGS:
+            j = z3.Int(fresh_name("j"))
+            self.pc.append(z3.ForAll([j], z3.Or([ops.tag_is(SV("val", z3.Select(arr, j)), tg) for tg in TYPE_TAGS[typ]])))
+        lst.fields[attr] = (typ, arr)
+        self.input_shapes.setdefault(lst.path, (f"{'pairlist' if lst.pair else 'objlist'}[{lst.clsname}]", None))
+        self.objlist_fields.setdefault(lst.path, {})[attr] = (typ, nm)
+        return lst.fields[attr]
+
+    def elem_get(self, er, attr):
+        lst = self.heap[er.oid]
+        fa = self.elem_field_array(lst, attr)
+        if fa is None:
+            return None
+        typ, arr = fa
+        t = z3.Select(arr, er.idx)
+        if typ in self.SORTS:
+            return SV(typ, t)
+        return ops.V(t, TYPE_TAGS.get(typ, ("opaque",) if typ == "opaque" else None))
+
+    def elem_set(self, er, attr, value):
+        lst = self.heap[er.oid]
+        fa = self.elem_field_array(lst, attr)
+        if fa is None:
+            raise OutsideSubset(f"no declared type for field {attr} of {lst.clsname} list elements")
+        typ, arr = fa
+        if not isinstance(value, SV):
+            raise OutsideSubset("reference stored in a list-element field")
+        if typ in self.SORTS:
+            if value.kind != typ:
+                if typ == "int" and value.kind == "bool":
+                    term = ops.as_int(value)
+                else:
+                    raise OutsideSubset(f"store {value.kind} into {typ} field")
+            else:
+                term = value.term
+        else:
+            term = ops.to_val(value)
+        lst.fields[attr] = (typ, z3.Store(arr, er.idx, term))
+        self.written_paths.add(f"{lst.path}[*].{attr}")
+
     def types_lookup(self, path, obj=None, attr=None):
         t = self.contract.types.get(path)
         if t is not None:
             return t
+        if obj is not None:
+            for alt in self.alias_paths.get(obj.path, []):
+                t = self.contract.types.get(f"{alt}.{attr}")
+                if t is not None:
+                    return t
         if obj is not None and self.contract.class_fields:
             names = [c.name for c in obj.cf.mro] if obj.cf is not None else ([obj.clsname] if obj.clsname else [])
             for nm in names:
@@ -375,13 +480,17 @@ class Exec:
     spec_mode_old = False
 
     def _mirror_into_old(self, path, v):
-        oh = self.old_state["heap"]
-        # find the parent object by oid (oids are stable across the snapshot)
-        for oid, obj in self.heap.items():
-            if isinstance(obj, HObj) and path.startswith(obj.path + ".") and "." not in path[len(obj.path) + 1:]:
-                attr = path[len(obj.path) + 1:]
-                if oid in oh and isinstance(oh[oid], HObj) and attr not in oh[oid].fields:
-                    oh[oid].fields[attr] = self._snap_value(v, oh)
+        # a lazily created input has the same initial value in every snapshot taken so far
+        for st in [self.old_state] + list(self.old_stack):
+            if st is None:
+                continue
+            oh = st["heap"]
+            # find the parent object by oid (oids are stable across the snapshot)
+            for oid, obj in self.heap.items():
+                if isinstance(obj, HObj) and path.startswith(obj.path + ".") and "." not in path[len(obj.path) + 1:]:
+                    attr = path[len(obj.path) + 1:]
+                    if oid in oh and isinstance(oh[oid], HObj) and attr not in oh[oid].fields:
+                        oh[oid].fields[attr] = self._snap_value(v, oh)
         return
 
     def _snap_value(self, v, oh):
@@ -412,6 +521,9 @@ class Exec:
             if lk and lk[0] == "property":
                 raise PyRaise("AttributeError", f"can't set {attr}")
         path = f"{obj.path}.{attr}"
+        if getattr(obj, "fresh", False):
+            obj.fields[attr] = value
+            return
         if attr not in obj.fields and self.types_lookup(path, obj, attr) is not None:
             # make sure the old value exists (for frame / old())
             self.get_attr(ref, attr)
@@ -444,10 +556,12 @@ class Exec:
                 return z3.BoolVal(len(o.items) > 0)
             if isinstance(o, HRec):
                 return z3.BoolVal(len(o.items) > 0)
+            if isinstance(o, HObjList):
+                return o.length > 0
             if isinstance(o, HDict):
                 raise OutsideSubset("truthiness of dict")
             return z3.BoolVal(True)
-        if isinstance(v, (ClassRef, EnumVal, tuple)):
+        if isinstance(v, (ClassRef, EnumVal, tuple, ElemRef)):
             return z3.BoolVal(True)
         raise OutsideSubset(f"truthiness of {v}")
 
@@ -489,6 +603,27 @@ class Exec:
         return self.attr_of(base, n.attr, n)
 
     def attr_of(self, base, attr, n=None):
+        if isinstance(base, ElemRef):
+            lst = self.heap[base.oid]
+            if base.part == "pair":
+                raise OutsideSubset("attribute of an [expr, memo] pair")
+            if attr == "__class__":
+                return ClassRef(lst.clsname, lst.cf)
+            v = None
+            if lst.cf is not None:
+                lk = self.facts.lookup(lst.cf, attr)
+                if lk and lk[0] == "property":
+                    return self.call_unit(lk[1], base, [], {}, prop=True)
+                if lk and lk[0] in ("method", "classmethod", "staticmethod"):
+                    return ("boundmethod", base, lk[1])
+            v = self.elem_get(base, attr)
+            if v is None:
+                if lst.cf is not None and self.facts.lookup(lst.cf, attr) is None and attr not in self.contract.extra_attrs.get(lst.cf.name, []):
+                    if self.spec_mode:
+                        raise OutsideSubset(f"spec reads missing attribute {attr}")
+                    raise PyRaise("AttributeError", f"{lst.clsname}.{attr}")
+                raise OutsideSubset(f"no declared type for field {attr} of {lst.clsname} list elements")
+            return v
         if isinstance(base, Ref):
             o = self.heap[base.oid]
             if isinstance(o, HObj):
@@ -580,7 +715,7 @@ class Exec:
                 if isinstance(oa, HList) and isinstance(ob, HTuple):
                     seq = oa.seq
                     for it in ob.items:
-                        t, fits = ops.elem_term(oa.elem, it)
+                        t, fits = ops.elem_term(oa.elem, self.as_scalar(it))
                         seq = z3.Concat(seq, z3.Unit(t))
                     return self.alloc(HList(oa.elem, seq))
                 if isinstance(oa, HTuple) and isinstance(ob, HTuple):
@@ -620,6 +755,15 @@ class Exec:
         return r
 
     def identical(self, a, b):
+        if isinstance(a, ElemRef) or isinstance(b, ElemRef):
+            if isinstance(a, ElemRef) and isinstance(b, ElemRef):
+                if a.oid != b.oid or a.part != b.part:
+                    return z3.BoolVal(False)
+                return a.idx == b.idx
+            other = b if isinstance(a, ElemRef) else a
+            if isinstance(other, (Ref, SV)):
+                # list elements are distinct from every separately named object (no-alias assumption) and from scalars
+                return z3.BoolVal(False)
         if isinstance(a, Ref) and isinstance(b, Ref):
             return z3.BoolVal(a.oid == b.oid)
         if isinstance(a, Ref) or isinstance(b, Ref):
@@ -633,6 +777,8 @@ class Exec:
         raise OutsideSubset("is")
 
     def equal(self, a, b):
+        if isinstance(a, ElemRef) or isinstance(b, ElemRef):
+            return self.identical(a, b)
         if isinstance(a, EnumVal):
             a = self.const(a.value) if not isinstance(b, EnumVal) else a
         if isinstance(a, EnumVal) and isinstance(b, EnumVal):
@@ -688,6 +834,8 @@ class Exec:
             if isinstance(o, HList):
                 if isinstance(item, EnumVal):
                     item = self.const(item.value)
+                if isinstance(item, Ref) and isinstance(self.heap.get(item.oid), HObj) and o.elem == "val":
+                    item = self.as_scalar(item)
                 if not isinstance(item, SV):
                     return z3.BoolVal(False)
                 if o.elem == "val":
@@ -697,6 +845,10 @@ class Exec:
                 return z3.And(fits, z3.Contains(o.seq, z3.Unit(t)))
             if isinstance(o, HTuple):
                 return z3.Or([self.equal(it, item) for it in o.items] + [z3.BoolVal(False)])
+            if isinstance(o, HObjList):
+                if isinstance(item, ElemRef) and item.oid == container.oid:
+                    return z3.And(item.idx >= 0, item.idx < o.length)
+                return z3.BoolVal(False)
             if isinstance(o, HRec):
                 k = self.const_str(item)
                 if k is None:
@@ -798,6 +950,22 @@ class Exec:
         return z3.If(i < 0, i + length, i)
 
     def index(self, base, idx):
+        if isinstance(base, ElemRef) and base.part == "pair":
+            k = z3.simplify(idx.term) if isinstance(idx, SV) and idx.kind == "int" else None
+            if k is None or not z3.is_int_value(k):
+                raise OutsideSubset("pair index must be constant")
+            if k.as_long() == 0:
+                return ElemRef(base.oid, base.idx, "obj")
+            if k.as_long() == 1:
+                return self.elem_get(ElemRef(base.oid, base.idx, "obj"), "__memo__")
+            raise PyRaise("IndexError", "pair index")
+        if isinstance(base, Ref) and isinstance(self.heap[base.oid], HObjList):
+            o = self.heap[base.oid]
+            if not (isinstance(idx, SV) and idx.kind in ("int", "bool")):
+                raise OutsideSubset("object list index type")
+            i = ops.as_int(idx)
+            self.maybe_raise(z3.Or(i >= o.length, i < -o.length), "IndexError", "list index")
+            return ElemRef(base.oid, self.norm_index(idx, o.length), "pair" if o.pair else "obj")
         if isinstance(base, Ref):
             o = self.heap[base.oid]
             if isinstance(o, HTuple):
@@ -888,6 +1056,12 @@ class Exec:
             for k in n.keywords:
                 self.eval_for_effect(k.value)
             return NONE
+        if not self.spec_mode and DROPPED.is_external_opaque(n):
+            for a in n.args:
+                self.eval_for_effect(a)
+            t = z3.Const(fresh_name("ext"), Val)
+            self.pc.append(Val.is_OpaqueV(t))
+            return ops.V(t, ("opaque",))
         if self.spec_mode:
             r = self.spec_call(n)
             if r is not NotImplemented:
@@ -941,6 +1115,14 @@ class Exec:
             r = hook(cref, args, kw)
             if r is not None:
                 return r
+        if cref.cf is not None:
+            lk = self.facts.lookup(cref.cf, "__init__")
+            q = f"{name}.__init__"
+            if lk and lk[0] == "method" and (q in self.contract.inline or lk[1].qualname in self.contract.inline):
+                ref = self.alloc(HObj(name, cref.cf, fresh_name(name.lower())))
+                self.heap[ref.oid].fresh = True
+                self.inline(lk[1], ref, args, kw)
+                return ref
         raise OutsideSubset(f"construction of {name}")
 
     def builtin(self, name, args, kw, n):
@@ -951,6 +1133,10 @@ class Exec:
                 if isinstance(o, HList):
                     return I(z3.Length(o.seq))
                 if isinstance(o, HTuple):
+                    return I(len(o.items))
+                if isinstance(o, HObjList):
+                    return I(o.length)
+                if isinstance(o, HRec):
                     return I(len(o.items))
             if isinstance(v, SV) and v.kind in ("str", "val"):
                 if v.kind == "val":
@@ -991,9 +1177,21 @@ class Exec:
         if name == "abs" and isinstance(args[0], SV) and args[0].kind == "int":
             return I(z3.If(args[0].term < 0, -args[0].term, args[0].term))
         if name == "hasattr":
-            hook = getattr(self, "hasattr_hook", None)
-            if hook:
-                return hook(args[0], args[1])
+            obj, an = args[0], self.const_str(args[1])
+            if isinstance(obj, Ref) and isinstance(self.heap[obj.oid], HObj) and an is not None:
+                o = self.heap[obj.oid]
+                if an in o.fields:
+                    return TRUE
+                if o.cf is not None and self.facts.lookup(o.cf, an) is not None:
+                    return TRUE
+                if self.types_lookup(f"{o.path}.{an}", o, an) is not None:
+                    # declared as possibly present: ghost flag has_<attr>
+                    flag = o.fields.get("__has_" + an)
+                    if flag is None:
+                        flag = SV("bool", z3.Bool(fresh_name(f"{o.path}.has_{an}")))
+                        o.fields["__has_" + an] = flag
+                    return flag
+                return FALSE
             raise OutsideSubset("hasattr")
         if name == "list":
             if not args:
@@ -1004,6 +1202,14 @@ class Exec:
         raise OutsideSubset(f"builtin {name}")
 
     def isinstance(self, v, cls):
+        if isinstance(v, ElemRef):
+            cname = cls[1] if isinstance(cls, tuple) else getattr(cls, "name", None)
+            if isinstance(cls, Ref):
+                return z3.Or([self.isinstance(v, c) for c in self.heap[cls.oid].items])
+            lst = self.heap[v.oid]
+            if v.part == "pair":
+                return z3.BoolVal(cname == "list")
+            return z3.BoolVal(lst.cf is not None and self.facts.is_subclass(lst.cf, cname))
         if isinstance(cls, Ref):     # tuple of classes
             o = self.heap[cls.oid]
             return z3.Or([self.isinstance(v, c) for c in o.items])
@@ -1016,6 +1222,8 @@ class Exec:
                 return z3.BoolVal(cname == ("tuple" if o.is_tuple else "list"))
             if isinstance(o, (HDict, HRec)):
                 return z3.BoolVal(cname == "dict")
+            if isinstance(o, HObjList):
+                return z3.BoolVal(cname == "list")
             if isinstance(o, HObj):
                 if o.cf is not None:
                     return z3.BoolVal(self.facts.is_subclass(o.cf, cname) or exc_is_a(self.facts, o.clsname, cname) if o.fields.get("__exc__") is not None else self.facts.is_subclass(o.cf, cname))
@@ -1185,6 +1393,9 @@ class Exec:
     def as_scalar(self, v):
         if isinstance(v, EnumVal):
             return self.const(v.value)
+        if isinstance(v, Ref) and isinstance(self.heap.get(v.oid), HObj):
+            # an object stored in a list[val] is its identity
+            return ops.V(Val.OpaqueV(z3.IntVal(v.oid)), ("opaque",))
         if not isinstance(v, SV):
             raise OutsideSubset("reference stored in a typed list")
         return v
@@ -1400,6 +1611,12 @@ class Exec:
                 return z3.And([self.same_value(x, y) for x, y in zip(ha.items, hb.items)] + [z3.BoolVal(True)])
             if isinstance(ha, HDict) and isinstance(hb, HDict):
                 return z3.And(ha.arr == hb.arr, ha.dom == hb.dom)
+            if isinstance(ha, HObjList) and isinstance(hb, HObjList):
+                conj = [ha.length == hb.length]
+                for k in set(ha.fields) | set(hb.fields):
+                    if k in ha.fields and k in hb.fields:
+                        conj.append(ha.fields[k][1] == hb.fields[k][1])
+                return z3.And(conj)
             if isinstance(ha, HRec) and isinstance(hb, HRec):
                 if set(ha.items) != set(hb.items):
                     return z3.BoolVal(False)
@@ -1423,6 +1640,14 @@ class Exec:
                 c = HRec({k: self.freeze_old(it) for k, it in o.items.items()})
                 c.orig = v.oid
                 return self.alloc(c)
+            if isinstance(o, HObjList):
+                c = o.clone()
+                c.orig = v.oid
+                return self.alloc(c)
+        if isinstance(v, ElemRef) and self.old_state is not None and v.oid in self.old_state["heap"]:
+            c = self.old_state["heap"][v.oid].clone()
+            c.orig = v.oid
+            return ElemRef(self.alloc(c).oid, v.idx, v.part)
         return v
 
     def in_old(self, thunk):
@@ -1525,6 +1750,14 @@ class Exec:
             self.locals[t.id] = v
         elif isinstance(t, ast.Attribute):
             base = self.eval(t.value)
+            if isinstance(base, ElemRef):
+                lst = self.heap[base.oid]
+                st = self.facts.setter(lst.cf, t.attr) if lst.cf is not None else None
+                if st is not None:
+                    self.call_unit(st, base, [v], {}, prop=True)
+                else:
+                    self.elem_set(base, t.attr, v)
+                return
             if not isinstance(base, Ref):
                 if isinstance(base, SV) and base.kind == "none":
                     raise PyRaise("AttributeError", "set attribute on None")
@@ -1544,6 +1777,12 @@ class Exec:
             raise OutsideSubset("assignment target")
 
     def store_index(self, base, idx, v):
+        if isinstance(base, ElemRef) and base.part == "pair":
+            k = z3.simplify(idx.term) if isinstance(idx, SV) and idx.kind == "int" else None
+            if k is not None and z3.is_int_value(k) and k.as_long() == 1:
+                self.elem_set(ElemRef(base.oid, base.idx, "obj"), "__memo__", v)
+                return
+            raise OutsideSubset("store into pair")
         if isinstance(base, Ref):
             o = self.heap[base.oid]
             if isinstance(o, HTuple) and isinstance(idx, SV) and idx.kind == "int":
@@ -1699,7 +1938,7 @@ class Exec:
                     except ContinueSig:
                         continue
                 return
-            if isinstance(o, HList):
+            if isinstance(o, (HList, HObjList)):
                 return self.cut_loop(key, s, kind="list", seqref=seqv, enum=enum, idx_name=idx_name)
         hook = getattr(self, "for_hook", None)
         if hook:
@@ -1758,12 +1997,29 @@ class Exec:
             if isinstance(o, HRec):
                 o.items = {k: self.havoc_value(it, f"{label}.{k}") for k, it in o.items.items()}
                 return v
+            if isinstance(o, HObjList):
+                for k, (typ, arr) in list(o.fields.items()):
+                    self.havoc_elem_field(o, k)
+                return v
             if isinstance(o, HDict):
                 o.arr = z3.Const(fresh_name(label + "!arr"), o.arr.sort())
                 o.dom = z3.Const(fresh_name(label + "!dom"), o.dom.sort())
                 return v
             return v
         return v
+
+    def seq_len(self, ref):
+        o = self.heap[ref.oid]
+        return o.length if isinstance(o, HObjList) else z3.Length(o.seq)
+
+    def havoc_elem_field(self, lst, attr):
+        fa = self.elem_field_array(lst, attr)
+        typ, arr = fa
+        na = z3.Const(fresh_name(f"{lst.path}[*].{attr}"), arr.sort())
+        if typ in TYPE_TAGS:
+            j = z3.Int(fresh_name("j"))
+            self.pc.append(z3.ForAll([j], z3.Or([ops.tag_is(SV("val", z3.Select(na, j)), tg) for tg in TYPE_TAGS[typ]])))
+        lst.fields[attr] = (typ, na)
 
     def cut_loop(self, key, s, kind, var=None, lo=None, hi=None, seqref=None, enum=False, idx_name=None):
         invs = self.contract.invariants.get(key)
@@ -1785,8 +2041,15 @@ class Exec:
                 if isinstance(cur, Ref) and isinstance(self.heap[cur.oid], HObj):
                     continue
                 self.locals[nm] = self.havoc_value(cur, nm) if not isinstance(cur, Ref) else cur
-        extra = self.contract.loop_havoc.get(key, [])
-        for e in exprs + [ast.parse(p, mode="eval").body for p in extra]:
+        extra = []
+        for p_ in self.contract.loop_havoc.get(key, []):
+            if "[*]." in p_:
+                base_txt, fld = p_.split("[*].")
+                lref = self.eval(ast.parse(path_expr(base_txt), mode="eval").body)
+                self.havoc_elem_field(self.heap[lref.oid], fld)
+            else:
+                extra.append(p_)
+        for e in exprs + [ast.parse(path_expr(p), mode="eval").body for p in extra]:
             try:
                 cur = self.eval(_as_load(e))
             except PyRaise:
@@ -1808,15 +2071,14 @@ class Exec:
         elif kind == "list":
             iv = z3.Int(fresh_name(idx_name))
             self.locals[idx_name] = I(iv)
-            seq = self.heap[seqref.oid].seq
-            self.assume(z3.And(iv >= 0, iv <= z3.Length(seq)))
+            self.assume(z3.And(iv >= 0, iv <= self.seq_len(seqref)))
         for inv in invs:
             self.assume(self.spec_loop(inv, pre_loop))
         # ---- choose: one arbitrary iteration, or exit
         if kind == "range":
             guard = self.locals[var].term < hi
         elif kind == "list":
-            guard = self.locals[idx_name].term < z3.Length(self.heap[seqref.oid].seq)
+            guard = self.locals[idx_name].term < self.seq_len(seqref)
         else:
             guard = None
         if kind == "while":
@@ -1831,7 +2093,10 @@ class Exec:
         # iteration
         if kind == "list":
             o = self.heap[seqref.oid]
-            item = ops.elem_sv(o.elem, o.seq[self.locals[idx_name].term])
+            if isinstance(o, HObjList):
+                item = ElemRef(seqref.oid, self.locals[idx_name].term, "pair" if o.pair else "obj")
+            else:
+                item = ops.elem_sv(o.elem, o.seq[self.locals[idx_name].term])
             if enum:
                 self.assign(s.target, self.alloc(HTuple([self.locals[idx_name], item], is_tuple=True)))
             else:
@@ -1911,6 +2176,7 @@ class CalleeView:
                 ex.prove(f"call:{cc.ident}.requires{i}", "requires-at-call", g)
                 ex.contract = _merged_types(saved_contract, cc)
                 ex.assume(g)
+            ex.old_stack.append(saved_old)
             ex.old_state = ex.snapshot()
             # raises
             conds = []
@@ -1946,10 +2212,22 @@ class CalleeView:
                 ex.assume(ex.spec(e, result=res))
             return res
         finally:
+            if ex.old_stack and ex.old_stack[-1] is saved_old:
+                ex.old_stack.pop()
             ex.locals, ex.contract, ex.old_state, ex.bound = saved_locals, saved_contract, saved_old, saved_bound
 
     def havoc_path(self, p):
         ex = self.ex
+        if "[*]." in p:
+            base_txt, fld = p.split("[*].")
+            saved = ex.spec_mode
+            ex.spec_mode = True
+            try:
+                lref = ex.eval(ast.parse(path_expr(base_txt), mode="eval").body)
+            finally:
+                ex.spec_mode = saved
+            ex.havoc_elem_field(ex.heap[lref.oid], fld)
+            return
         node = ast.parse(path_expr(p), mode="eval").body
         saved = ex.spec_mode
         ex.spec_mode = True
@@ -1963,6 +2241,10 @@ class CalleeView:
                 base = ex.eval(node.value)
             finally:
                 ex.spec_mode = saved
+            if isinstance(base, ElemRef) and isinstance(cur, SV):
+                nv = ex.havoc_value(cur, p)
+                ex.elem_set(base, node.attr, nv)
+                return
             if isinstance(cur, SV):
                 typ = self.cc.types.get(p) or ex.types_lookup(p, ex.heap[base.oid], node.attr)
                 nv = ex.mk(typ, fresh_name(p)) if typ else ex.havoc_value(cur, p)
